@@ -306,3 +306,104 @@ M C06 bytes-alloc-before-check bytes.go '	data, err := r.Next(int(l))
 	}
 	// We need to copy the data to avoid data issues'
 ls mutants/*/ | head -80
+# ---- benign: property-preserving changes; EVERY check must stay quiet on them (false-alarm controls)
+M benign lazy-header encoder.go '	if err := fw.WriteHeader(w); err != nil {
+		return nil, fmt.Errorf("writing file header: %w", err)
+	}
+
+	return &Encoder[T]{' '	return &Encoder[T]{' encoder.go '	if e.count > 0 {
+		if err := e.fw.WriteBlock' '	if !e.headerDone {
+		if err := e.fw.WriteHeader(e.w); err != nil {
+			return fmt.Errorf("writing file header: %w", err)
+		}
+		e.headerDone = true
+	}
+	if e.count > 0 {
+		if err := e.fw.WriteBlock' encoder.go '	wb              *WriteBuf
+	count           int' '	wb              *WriteBuf
+	count           int
+	headerDone      bool'
+M benign single-write-block filewriter.go '	// Write the count of rows in the block
+	if err := f.writeVarInt(w, rowCount); err != nil {
+		return fmt.Errorf("writing row count: %w", err)
+	}
+
+	compressed, err := f.compressor.compress(block)
+	if err != nil {
+		return fmt.Errorf("compressing block: %w", err)
+	}
+
+	// Write the (compressed) block size
+	if err := f.writeVarInt(w, len(compressed)); err != nil {
+		return fmt.Errorf("writing block len: %w", err)
+	}
+
+	// Write the block data.
+	if _, err := w.Write(compressed); err != nil {
+		return fmt.Errorf("writing block: %w", err)
+	}
+
+	// Write the sync block
+	if _, err := w.Write(f.sync[:]); err != nil {
+		return fmt.Errorf("writing sync: %w", err)
+	}
+	return nil' '	compressed, err := f.compressor.compress(block)
+	if err != nil {
+		return fmt.Errorf("compressing block: %w", err)
+	}
+	buf := binary.AppendVarint(nil, int64(rowCount))
+	buf = binary.AppendVarint(buf, int64(len(compressed)))
+	buf = append(buf, compressed...)
+	buf = append(buf, f.sync[:]...)
+	if _, err := w.Write(buf); err != nil {
+		return fmt.Errorf("writing block: %w", err)
+	}
+	return nil'
+M benign clear-on-close buffer.go '	typedmemclr(rt.ptyp, ptr)
+	return ptr' '	return ptr' buffer.go '		t := &rb.types[i]
+		t.len = 0' '		t := &rb.types[i]
+		for k := 0; k < t.len; k++ {
+			typedmemclr(t.ptyp, unsafe.Pointer(uintptr(t.array)+uintptr(k*t.size)))
+		}
+		t.len = 0'
+M benign no-pooling buffer.go '	resourceBankPool.Put(rb)
+}' '	_ = rb // banks are not recycled
+}'
+M benign array-grow-double array.go '	out := sliceHeader{
+		Cap: in.Len + len,
+		Len: in.Len,
+	}' '	out := sliceHeader{
+		Cap: max(in.Len+len, 2*in.Cap),
+		Len: in.Len,
+	}'
+M benign early-flush encoder.go '	if e.wb.Len() >= e.approxBlockSize {' '	if e.wb.Len() >= e.approxBlockSize/2 {'
+M benign error-wording file.go '			return fmt.Errorf("reading item count. %w", err)' '			return fmt.Errorf("could not read the block record count: %w", err)' file.go '			return fmt.Errorf("sync block does not match. Have %X, want %X", sig, fh.Sync)' '			return fmt.Errorf("block sync marker mismatch")'
+M benign deflate-best-speed file.go 'flate.NewWriter(&d.out, flate.DefaultCompression)' 'flate.NewWriter(&d.out, flate.BestSpeed)'
+M benign registry-plain-mutex build.go '	registryMutex sync.RWMutex' '	registryMutex rwAsMutex' build.go 'func Register(typ reflect.Type, f CodecBuildFunc) {' 'type rwAsMutex struct{ sync.Mutex }
+
+func (m *rwAsMutex) RLock()   { m.Lock() }
+func (m *rwAsMutex) RUnlock() { m.Unlock() }
+
+func Register(typ reflect.Type, f CodecBuildFunc) {'
+M benign tz-rwmutex time/parse.go '	tzLock sync.Mutex' '	tzLock sync.RWMutex' time/parse.go '	tzLock.Lock()
+	defer tzLock.Unlock()
+	tz, ok := tzMap[offset]
+	if !ok {
+		tz = time.FixedZone("", offset)
+		tzMap[offset] = tz
+	}
+	return tz' '	tzLock.RLock()
+	tz, ok := tzMap[offset]
+	tzLock.RUnlock()
+	if ok {
+		return tz
+	}
+	tzLock.Lock()
+	defer tzLock.Unlock()
+	if tz, ok = tzMap[offset]; !ok {
+		tz = time.FixedZone("", offset)
+		tzMap[offset] = tz
+	}
+	return tz'
+M benign readfile-bigger-chunks file.go '	const chunk = 1 << 16' '	const chunk = 1 << 12'
+ls mutants/benign
